@@ -1,7 +1,7 @@
 (* C08 — recordings and inputs land on the right row, compartment and time step.
    Models: Model/Index.v, Model/Scan.v.  Statements only. *)
 From Coq Require Import List ZArith Bool Arith.
-From JV Require Import Index IndexFacts Scan ScanFacts.
+From JV Require Import Index IndexFacts Scan ScanFacts StepCurrent StepCurrentFacts.
 Import ListNotations.
 
 (* rows: existing recordings keep their place (order of the record() calls), new ones are
@@ -49,3 +49,11 @@ Proof. intros; split; [apply pad_or_truncate_length | apply pad_or_truncate_nth;
 
 Example C08_nonvacuous : record [(0, 1); (1, 1)] [(1, 1); (2, 1); (0, 2)] = [(0, 1); (1, 1); (2, 1); (0, 2)].
 Proof. reflexivity. Qed.
+
+(* ---- step currents (stimulus.py, repair F42; Model/StepCurrent.v compared with the code) ----
+   a step that is specified on the time grid - delay = k0 dt, duration = kd dt for integers k0, kd and any dt > 0 -
+   carries its amplitude on exactly the samples k0 .. k0 + kd - 1 *)
+Theorem C08_step_current_window_on_the_grid : forall (k0 kd : BinNums.Z) (dt : QArith_base.Q),
+  QArith_base.Qlt (QArith_base.inject_Z 0) dt ->
+  step_window (QArith_base.Qmult (QArith_base.inject_Z k0) dt) (QArith_base.Qmult (QArith_base.inject_Z kd) dt) dt = (k0, BinInt.Z.add k0 kd).
+Proof. intros k0 kd dt H. apply window_on_grid. exact H. Qed.
